@@ -10,7 +10,7 @@ from . import c05
 ID = "C06"
 RULE = ("fault points enumerated, not sampled: every exception class (Exception subclasses, KeyboardInterrupt, SystemExit, GeneratorExit, CancelMutation) "
         "raised at every position of an edit script; an unserialisable property value / a chart without note data; an unencodable character for each "
-        "detected encoding; an earlier attempt on the same file that did not save (unserialisable value, raising body, cancelled) followed by the retry; a failure injected at each semantic file-system step of the save (open-for-write, write, close of the backup and of the "
+        "detected encoding (also with errors= handlers that still refuse it passed through); an earlier attempt on the same file that did not save (unserialisable value, raising body, cancelled) followed by the retry; a failure injected at each semantic file-system step of the save (open-for-write, write, close of the backup and of the "
         "output) x backup/output configurations x {.sm,.ssc} x native and in-memory file systems; compares final directory contents and the "
         "escaping exception class; non-trivial = a fault or exception actually fired")
 assumptions = c05.assumptions + ["what a failed write leaves in the file being written is not claimed (the model leaves it empty); the comparison ignores "
